@@ -3,6 +3,7 @@ package checks
 import (
 	"crypto/md5"
 	"encoding/hex"
+	v1 "github.com/DataDog/extendeddaemonset/api/v1alpha1"
 	"testing"
 	"time"
 
@@ -38,7 +39,12 @@ func c05World(t *testing.T, run *h.Run) (int64, int64) {
 			first: []w.Event{evb("setTemplate", edsKey, "B"), ev("R_eds", edsKey), ev("R_eds", edsKey), ev("R_ers", "ns/"+canaryRS), ev("ready", canaryPod)},
 			alpha: dev, budget: budget, mons: []func(*w.MonCtx){w.MonC05, w.MonC07}}
 	}
+	// autoFail.canaryTimeout (30 s) beyond the duration (20 s): a canary paused through the end of its duration fails by
+	// timeout instead of being promoted; whatever the order, a failed canary is never promoted by time
+	timeout := mk("S3-timed-auto-timeout", "auto", &w.Alpha{Kubectl: []string{"canary-pause", "canary-unpause"}, PodDev: []string{"restart:2"}})
+	timeout.eds = append(timeout.eds, func(e *v1.ExtendedDaemonSet) { e.Spec.Strategy.Canary.AutoFail.CanaryTimeout = w.Dur(30 * time.Second) })
 	scs := []scOpt{
+		timeout,
 		mk("S3-timed-auto-restart", "auto", &w.Alpha{PodDev: []string{"restart:1", "restart:3"}}),
 		mk("S3-timed-auto-commands", "auto", &w.Alpha{Kubectl: []string{"canary-pause", "canary-unpause", "canary-validate", "canary-fail"}}),
 		mk("S3-timed-manual", "manual", &w.Alpha{Kubectl: []string{"canary-validate", "canary-pause"}}),
